@@ -27,32 +27,104 @@ Proof.
   apply (generalize_address_free _ _ _ E).
 Qed.
 
+(* ---- producers ---- *)
+
+(* address-free by construction: nothing such a producer can return mentions the address ... *)
+Lemma producer_sound p e : addr_free_producer p = true -> can_produce p e = true -> mentions e = false.
+Proof.
+  destruct p as [t o| | | | | | | | | |]; cbn; try discriminate.
+  - destruct t; [|discriminate]. destruct o; try discriminate; intros _;
+      (destruct e as [l|i|a i|a i]; [destruct l; try discriminate; reflexivity | discriminate | | discriminate]);
+      intros H; apply andb_true_iff in H as [Ha Hi]; destruct a; try discriminate;
+      unfold mentions in *; cbn; now apply negb_true_iff in Hi.
+  - intros _. destruct e as [l| | |]; try discriminate. destruct l; try discriminate. reflexivity.
+  - intros _. destruct e as [|i|a i|]; try discriminate. destruct a; [discriminate|].
+    intros H. apply negb_true_iff in H. exact H.
+  - intros _ H. now apply negb_true_iff in H.
+  - intros _ H. now apply negb_true_iff in H.
+Qed.
+
+(* ... and every other producer can return the witness, which does *)
+Lemma producer_complete p :
+  addr_free_producer p = false -> can_produce p leak_witness = true /\ mentions leak_witness = true.
+Proof. destruct p as [t o| | | | | | | | | |]; try discriminate; try (split; reflexivity). destruct t, o; try discriminate; split; reflexivity. Qed.
+
 (* ---- a safe site never renders an address ---- *)
 
 Lemma safe_arg_render ev i a :
-  log_client_ip ev = false -> safe_arg a = true -> has_addr (render_arg ev i a) = false.
+  log_client_ip ev = false -> safe_arg a = true -> arg_ok ev i a = true -> has_addr (render_arg ev i a) = false.
 Proof.
-  intros Hl Hs. destruct a; cbn in *; try discriminate; auto using has_addr_words, generalized_text_clean.
-  now rewrite Hl.
+  intros Hl Hs Hok. destruct a; cbn in *; try discriminate; auto using has_addr_words, generalized_text_clean.
+  - destruct (err_of ev i) as [e|]; [|reflexivity]. exact (producer_sound _ _ Hs Hok).
+  - now rewrite Hl.
 Qed.
 
 Lemma safe_args_render ev : forall l i,
-  log_client_ip ev = false -> forallb safe_arg l = true -> has_addr (render_args ev i l) = false.
+  log_client_ip ev = false -> forallb safe_arg l = true -> args_ok ev i l = true -> has_addr (render_args ev i l) = false.
 Proof.
-  induction l as [|a l IH]; intros i Hl Hs; [reflexivity|].
+  induction l as [|a l IH]; intros i Hl Hs Hok; [reflexivity|].
   cbn in Hs. apply andb_true_iff in Hs as [Ha Hr].
-  cbn [render_args]. rewrite has_addr_app, (safe_arg_render _ _ _ Hl Ha), (IH _ Hl Hr). reflexivity.
+  cbn in Hok. apply andb_true_iff in Hok as [Hoa Hor].
+  cbn [render_args]. rewrite has_addr_app, (safe_arg_render _ _ _ Hl Ha Hoa), (IH _ Hl Hr Hor). reflexivity.
 Qed.
 
 Lemma safe_site_no_address s ev :
-  safe_site s = true -> log_client_ip ev = false ->
+  safe_site s = true -> env_ok s ev = true -> log_client_ip ev = false ->
   has_addr (output default_level s ev) = false.
 Proof.
-  unfold safe_site, output. intros Hs Hl.
+  unfold safe_site, output, env_ok. intros Hs Hok Hl.
   destruct (prints default_level (s_level s)); [|reflexivity].
   cbn in Hs. now apply safe_args_render.
 Qed.
 
+(* ---- an unsafe site has a failing run: the witness environment is consistent with the producers
+        and renders the address with client-address logging off ---- *)
+
+Lemma wit_arg ev i a :
+  log_client_ip ev = false -> err_of ev i = wit_err a ->
+  arg_ok ev i a = true /\ has_addr (render_arg ev i a) = negb (safe_arg a).
+Proof.
+  intros Hl He. destruct a; cbn in *; try (split; [reflexivity|]); auto using has_addr_words, generalized_text_clean.
+  - rewrite He. destruct (addr_free_producer p) eqn:F; cbn; [split; reflexivity|].
+    destruct (producer_complete p F) as [Hc Hm]. split; [exact Hc | exact Hm].
+  - now rewrite Hl.
+Qed.
+
+Lemma wit_args ev : forall l k,
+  log_client_ip ev = false ->
+  (forall j, err_of ev (k + j) = match nth_error l j with Some a => wit_err a | None => None end) ->
+  args_ok ev k l = true /\ has_addr (render_args ev k l) = negb (forallb safe_arg l).
+Proof.
+  induction l as [|a l IH]; intros k Hl H; [split; reflexivity|].
+  assert (Ha : err_of ev k = wit_err a) by (specialize (H 0%nat); rewrite Nat.add_0_r in H; exact H).
+  destruct (wit_arg ev k a Hl Ha) as [Hok Hr].
+  destruct (IH (S k) Hl) as [Hok' Hr'].
+  { intros j. specialize (H (S j)). rewrite Nat.add_succ_r in H. exact H. }
+  split.
+  - cbn [args_ok]. now rewrite Hok, Hok'.
+  - cbn [render_args forallb]. rewrite has_addr_app, Hr, Hr', negb_andb. reflexivity.
+Qed.
+
+Lemma unsafe_site_fails s :
+  safe_site s = false ->
+  env_ok s (wit_env s) = true /\ log_client_ip (wit_env s) = false /\
+  has_addr (output default_level s (wit_env s)) = true.
+Proof.
+  unfold safe_site, env_ok, output. intros Hs.
+  destruct (prints default_level (s_level s)); [|discriminate]. cbn [negb orb] in Hs.
+  destruct (wit_args (wit_env s) (s_args s) 0%nat eq_refl) as [Hok Hr]; [intros j; reflexivity|].
+  split; [exact Hok|]. split; [reflexivity|]. rewrite Hr, Hs. reflexivity.
+Qed.
+
+(* site safe  <->  no consistent run with logging off renders the address *)
+Lemma safe_site_iff s :
+  safe_site s = true <->
+  (forall ev, env_ok s ev = true -> log_client_ip ev = false -> has_addr (output default_level s ev) = false).
+Proof.
+  split; [intros Hs ev; now apply safe_site_no_address|].
+  intros H. destruct (safe_site s) eqn:Hs; [reflexivity|].
+  destruct (unsafe_site_fails s Hs) as (Hok & Hl & Hleak). rewrite (H _ Hok Hl) in Hleak. discriminate.
+Qed.
 
 (* ---- the level order ---- *)
 
@@ -87,9 +159,9 @@ Proof. intros. unfold output. destruct (prints cfg (s_level s)); [|reflexivity].
 
 (* with any setting that does not enable logging, a safe site prints no address *)
 Lemma disabled_means_every_non_true_value s ev :
-  safe_site s = true -> env_value ev <> EVTrue -> has_addr (output default_level s ev) = false.
+  safe_site s = true -> env_ok s ev = true -> env_value ev <> EVTrue -> has_addr (output default_level s ev) = false.
 Proof.
-  intros Hs Hv. apply safe_site_no_address; [exact Hs|].
+  intros Hs Hok Hv. apply safe_site_no_address; [exact Hs|exact Hok|].
   unfold log_client_ip. destruct (gate (env_value ev)) eqn:G; [|reflexivity].
   apply gate_fail_closed in G. contradiction.
 Qed.
